@@ -1171,13 +1171,22 @@ func convToString(v interface{}) string {
 // stack overflow that no recover can catch, so it is refused with a panic that Resolve reports
 // as an ordinary evaluation error.
 func sprintValue(v interface{}) string {
-	if containsItself(reflect.ValueOf(v), map[uintptr]bool{}) {
+	if containsItself(reflect.ValueOf(v), map[containerID]bool{}) {
 		panic("cyclic value cannot be converted to a string")
 	}
 	return fmt.Sprintf("%v", v)
 }
 
-func containsItself(rv reflect.Value, onPath map[uintptr]bool) bool {
+// containerID: an address alone does not identify a container - a slice cut from the first field of
+// a struct, that struct and the slice holding it all begin at one address, and so do a struct and
+// a pointer to its first field; such values were refused as cyclic.
+type containerID struct {
+	addr uintptr
+	typ  reflect.Type
+	len  int // of a slice: xs[:1] stored in xs[1] does not contain itself
+}
+
+func containsItself(rv reflect.Value, onPath map[containerID]bool) bool {
 	switch rv.Kind() {
 	case reflect.Interface:
 		return !rv.IsNil() && containsItself(rv.Elem(), onPath)
@@ -1191,7 +1200,10 @@ func containsItself(rv reflect.Value, onPath map[uintptr]bool) bool {
 		if rv.Type() == reflect.TypeOf((*decimal.Big)(nil)) {
 			return false
 		}
-		p := rv.Pointer()
+		p := containerID{addr: rv.Pointer(), typ: rv.Type()}
+		if rv.Kind() == reflect.Slice {
+			p.len = rv.Len()
+		}
 		if onPath[p] {
 			return true
 		}
